@@ -99,6 +99,9 @@ func RunOne(t *testing.T, mk func() World, c *simrt.Choices, opt Options) (res R
 			res.Trace = s.Trace
 		})
 	}()
+	if pw, ok := w.(interface{ Post(*RunResult) }); ok {
+		pw.Post(&res)
+	}
 	for i := range res.Violations {
 		v := &res.Violations[i]
 		// a hang inside lock acquisition is a C10 matter (a waiter must proceed once the holder
